@@ -1,16 +1,15 @@
-import QuiverModel.Core.Text.Fragment
-import QuiverModel.Lemmas.Text.Layout
-import QuiverModel.Lemmas.Parse.Eval
+import QuiverModel.Lemmas.Text.Pieces
 /-
 Lemmas for the fragment port (Core/Text/Fragment):
 
-  1. `LayP` — the LANGUAGE OF LAYOUTS of a fragment term, on the level of printed pieces: a tuple is
-     either flat (`[a, b]`) or broken (`[⏎a,⏎b,⏎]`, with a trailing comma), each field independently;
+  1. `LayP` / `LayF` / `ItemsP` — the LANGUAGE OF LAYOUTS of a fragment term, on the level of printed
+     pieces: a tuple is either flat (`A[a, x: b]`) or broken (`A[⏎a,⏎x: b,⏎]`, with a trailing comma),
+     each tuple independently;
   2. `printLoop_term` — whatever the width, the column, the indentation, the enclosing mode and the
-     rest of the stack, the layout engine prints `termDoc t` as one of the layouts of `t` and goes on
-     with the rest of the stack;
-  3. `strip_renderPieces` — a layout has no white space before a line break or at its end, so
-     `strip_trailing_whitespace` leaves its text alone;
+     rest of the stack, the layout engine prints `termDoc t` as (the text of) one of the layouts of `t`
+     and goes on with the rest of the stack;
+  3. layouts are tidy (no white space before a line break or at the end) and NUL-free, so
+     `strip_trailing_whitespace`, `collapse_blanks`, `expand_literals` leave them alone (Pieces.lean);
   4. `termP_lay` — the fragment parser reads every layout of `t` back as `t`.
 -/
 namespace QM.Frag
@@ -21,68 +20,47 @@ open QM.Text QM.Parse
 mutual
 inductive LayP : T → List Piece → Prop
   | leaf {n : Str} : isIdentStr n = true → LayP (.leaf n) [.atom n]
-  | empty : LayP (.tup []) [.atom ['[', ']']]
-  | flat {f : T} {fs : List T} {items : List Piece} :
-      ItemsP false (f :: fs) items → LayP (.tup (f :: fs)) (.atom ['['] :: (items ++ [.atom [']']]))
-  | brk {f : T} {fs : List T} {items : List Piece} (k1 k2 : Nat) :
-      ItemsP true (f :: fs) items →
-      LayP (.tup (f :: fs)) (.atom ['['] :: .nl k1 :: (items ++ [.atom [','], .nl k2, .atom [']']]))
-inductive ItemsP : Bool → List T → List Piece → Prop
-  | one {b : Bool} {f : T} {ps : List Piece} : LayP f ps → ItemsP b [f] ps
-  | consFlat {f g : T} {fs : List T} {ps rest : List Piece} :
-      LayP f ps → ItemsP false (g :: fs) rest → ItemsP false (f :: g :: fs) (ps ++ .atom [','] :: .sp :: rest)
-  | consBrk {f g : T} {fs : List T} {ps rest : List Piece} (k : Nat) :
-      LayP f ps → ItemsP true (g :: fs) rest → ItemsP true (f :: g :: fs) (ps ++ .atom [','] :: .nl k :: rest)
+  | empty {name : Option Str} : optOk isTupleNameStr name → LayP (.tup name []) [.atom (emptyText name)]
+  | flat {name : Option Str} {f : F} {fs : List F} {items : List Piece} :
+      optOk isTupleNameStr name → ItemsP false (f :: fs) items →
+      LayP (.tup name (f :: fs)) (.atom (openText name) :: (items ++ [.atom [']']]))
+  | brk {name : Option Str} {f : F} {fs : List F} {items : List Piece} (k1 k2 : Nat) :
+      optOk isTupleNameStr name → ItemsP true (f :: fs) items →
+      LayP (.tup name (f :: fs))
+        (.atom (openText name) :: .nl k1 :: (items ++ [.atom [','], .nl k2, .atom [']']]))
+/-- a field: its value, behind `label:` and a space if it is named (the formatter prints the label
+    as ONE text `label: `; the layout keeps the space apart — same text, see `PrintsAs`) -/
+inductive LayF : F → List Piece → Prop
+  | unnamed {t : T} {ps : List Piece} : LayP t ps → LayF (.mk none t) ps
+  | named {l : Str} {t : T} {ps : List Piece} : isIdentStr l = true → LayP t ps →
+      LayF (.mk (some l) t) (.atom (l ++ [':']) :: .sp :: ps)
+inductive ItemsP : Bool → List F → List Piece → Prop
+  | one {b : Bool} {f : F} {ps : List Piece} : LayF f ps → ItemsP b [f] ps
+  | consFlat {f g : F} {fs : List F} {ps rest : List Piece} :
+      LayF f ps → ItemsP false (g :: fs) rest → ItemsP false (f :: g :: fs) (ps ++ .atom [','] :: .sp :: rest)
+  | consBrk {f g : F} {fs : List F} {ps rest : List Piece} (k : Nat) :
+      LayF f ps → ItemsP true (g :: fs) rest → ItemsP true (f :: g :: fs) (ps ++ .atom [','] :: .nl k :: rest)
 end
 
 /-! ### 2. The engine prints a layout -/
 
-section
-variable (w col i : Nat) (m : Mode) (st : List Frame)
-
-theorem pl_nil : printLoop w col (⟨i, m, .nil⟩ :: st) [] = printLoop w col st [] :=
-  printLoop_docNil w col _ st [] rfl
-theorem pl_bp : printLoop w col (⟨i, m, .breakParent⟩ :: st) [] = printLoop w col st [] :=
-  printLoop_breakParent w col _ st [] rfl
-theorem pl_text (s : List Char) :
-    printLoop w col (⟨i, m, .text s⟩ :: st) [] = .atom s :: printLoop w (col + s.length) st [] :=
-  printLoop_text w col _ st [] s rfl
-theorem pl_concat (ds : List Doc) :
-    printLoop w col (⟨i, m, .concat ds⟩ :: st) [] = printLoop w col (mkFrames i m ds ++ st) [] :=
-  printLoop_concat w col _ st [] ds rfl
-theorem pl_nest (n : Nat) (d : Doc) :
-    printLoop w col (⟨i, m, .nest n d⟩ :: st) [] = printLoop w col (⟨i + n, m, d⟩ :: st) [] :=
-  printLoop_nest w col _ st [] n d rfl
-theorem pl_line_flat :
-    printLoop w col (⟨i, .flat, .line⟩ :: st) [] = .sp :: printLoop w (col + 1) st [] :=
-  printLoop_line_flat w col _ st [] rfl rfl
-theorem pl_line_brk :
-    printLoop w col (⟨i, .brk, .line⟩ :: st) [] = .nl i :: printLoop w i st [] :=
-  printLoop_break_nil w col _ st (.inl ⟨rfl, rfl⟩)
-theorem pl_softline_flat :
-    printLoop w col (⟨i, .flat, .softline⟩ :: st) [] = printLoop w col st [] :=
-  printLoop_softline_flat w col _ st [] rfl rfl
-theorem pl_softline_brk :
-    printLoop w col (⟨i, .brk, .softline⟩ :: st) [] = .nl i :: printLoop w i st [] :=
-  printLoop_break_nil w col _ st (.inr (.inl ⟨rfl, rfl⟩))
-theorem pl_ifBreak_brk (b fl : Doc) :
-    printLoop w col (⟨i, .brk, .ifBreak b fl⟩ :: st) [] = printLoop w col (⟨i, .brk, b⟩ :: st) [] :=
-  printLoop_ifBreak_brk w col _ st [] b fl rfl rfl
-theorem pl_ifBreak_flat (b fl : Doc) :
-    printLoop w col (⟨i, .flat, .ifBreak b fl⟩ :: st) [] = printLoop w col (⟨i, .flat, fl⟩ :: st) [] :=
-  printLoop_ifBreak_flat w col _ st [] b fl rfl rfl
-theorem pl_group (d : Doc) (sb : Bool) :
-    ∃ m', printLoop w col (⟨i, m, .group d sb⟩ :: st) [] = printLoop w col (⟨i, m', d⟩ :: st) [] :=
-  ⟨_, printLoop_group w col _ st [] d sb rfl⟩
-end
-
-/-- what `printLoop_term` says about a document `d` meant to print the term `t` -/
-def PrintsAs (d : Doc) (t : T) : Prop :=
+/-- What the print lemmas say about a document `d`: in every context the engine prints pieces with
+    the TEXT of some piece list in `Lay` (the pieces themselves may be cut differently: `x: ` is one
+    atom for the engine, an atom and a space in the layout), then goes on with the rest of the stack. -/
+def PrintsAs (d : Doc) (Lay : List Piece → Prop) : Prop :=
   ∀ (w col i : Nat) (m : Mode) (st : List Frame),
-    ∃ ps col', printLoop w col (⟨i, m, d⟩ :: st) [] = ps ++ printLoop w col' st [] ∧ LayP t ps
+    ∃ ps' ps col', printLoop w col (⟨i, m, d⟩ :: st) [] = ps' ++ printLoop w col' st [] ∧
+      renderPieces ps' = renderPieces ps ∧ Lay ps
 
-/-- `chain_doc` and `field_doc` add nothing to the output -/
-theorem printsAs_chainDoc {d : Doc} {t : T} (h : PrintsAs d t) : PrintsAs (chainDoc d) t := by
+theorem PrintsAs.mono {d : Doc} {Lay Lay' : List Piece → Prop} (h : PrintsAs d Lay)
+    (himp : ∀ ps, Lay ps → Lay' ps) : PrintsAs d Lay' := by
+  intro w col i m st
+  obtain ⟨ps', ps, col', hp, hr, hl⟩ := h w col i m st
+  exact ⟨ps', ps, col', hp, hr, himp ps hl⟩
+
+/-- `chain_doc` adds nothing to the output -/
+theorem printsAs_chainDoc {d : Doc} {Lay : List Piece → Prop} (h : PrintsAs d Lay) :
+    PrintsAs (chainDoc d) Lay := by
   intro w col i m st
   simp only [chainDoc, pl_concat, mkFrames, List.cons_append, List.nil_append, pl_nil, Doc.mkGroup]
   obtain ⟨m', hg⟩ := pl_group w col i m st (breakIfWiderThan (.concat [d]) chainSoftWidth)
@@ -93,75 +71,76 @@ theorem printsAs_chainDoc {d : Doc} {t : T} (h : PrintsAs d t) : PrintsAs (chain
   · simp only [pl_concat, mkFrames, List.cons_append, List.nil_append]
     exact h w col i m' st
   · simp only [pl_concat, mkFrames, List.cons_append, List.nil_append]
-    obtain ⟨ps, col', hp, hl⟩ := h w col i m' (⟨i, m', .breakParent⟩ :: st)
-    exact ⟨ps, col', by rw [hp, pl_bp], hl⟩
+    obtain ⟨ps', ps, col', hp, hr, hl⟩ := h w col i m' (⟨i, m', .breakParent⟩ :: st)
+    exact ⟨ps', ps, col', by rw [hp, pl_bp], hr, hl⟩
 
-theorem printsAs_fieldDoc {d : Doc} {t : T} (h : PrintsAs d t) : PrintsAs (fieldDoc d) t := by
+/-- … nor does `field_doc` without trivia -/
+theorem printsAs_fieldDoc {d : Doc} {Lay : List Piece → Prop} (h : PrintsAs d Lay) :
+    PrintsAs (fieldDoc d) Lay := by
   intro w col i m st
   simp only [fieldDoc, pl_concat, mkFrames, List.cons_append, List.nil_append, pl_nil]
-  obtain ⟨ps, col', hp, hl⟩ := printsAs_chainDoc h w col i m (⟨i, m, .nil⟩ :: st)
-  exact ⟨ps, col', by rw [hp, pl_nil], hl⟩
+  obtain ⟨ps', ps, col', hp, hr, hl⟩ := h w col i m (⟨i, m, .nil⟩ :: st)
+  exact ⟨ps', ps, col', by rw [hp, pl_nil], hr, hl⟩
 
-/-- the separator of `bracketed` -/
-def sepDoc : Doc := .concat [.text [','], .line]
+/-- a named field: the label text, then the value -/
+theorem printsAs_labelled {d : Doc} {t : T} {l : Str} (hl : isIdentStr l = true)
+    (h : PrintsAs d (LayP t)) :
+    PrintsAs (.concat [.text (l ++ [':', ' ']), d]) (LayF (.mk (some l) t)) := by
+  intro w col i m st
+  simp only [pl_concat, mkFrames, List.cons_append, List.nil_append, pl_text]
+  obtain ⟨ps', ps, col', hp, hr, hlay⟩ := h w (col + (l ++ [':', ' ']).length) i m st
+  refine ⟨.atom (l ++ [':', ' ']) :: ps', .atom (l ++ [':']) :: .sp :: ps, col', by rw [hp]; rfl, ?_,
+    .named hl hlay⟩
+  simp [renderPieces, Piece.render, hr]
 
-theorem pl_sep_flat (w col i : Nat) (st : List Frame) :
-    printLoop w col (⟨i, .flat, sepDoc⟩ :: st) [] = .atom [','] :: .sp :: printLoop w (col + 1 + 1) st [] := by
-  simp only [sepDoc, pl_concat, mkFrames, List.cons_append, List.nil_append, pl_text, pl_line_flat,
-    List.length_cons, List.length_nil]
-theorem pl_sep_brk (w col i : Nat) (st : List Frame) :
-    printLoop w col (⟨i, .brk, sepDoc⟩ :: st) [] = .atom [','] :: .nl i :: printLoop w i st [] := by
-  simp only [sepDoc, pl_concat, mkFrames, List.cons_append, List.nil_append, pl_text, pl_line_brk]
-
-def isBrk : Mode → Bool
-  | .brk => true
-  | .flat => false
-
-/-- what `printLoop_items` says about the field documents `ds` of the fields `fs` -/
-def ItemsPrintAs (fs : List T) : Prop :=
+/-- what `printLoop_items` says about the field documents of the fields `fs` -/
+def ItemsPrintAs (fs : List F) : Prop :=
   ∀ (w col i : Nat) (m : Mode) (st : List Frame),
-    ∃ ps col', printLoop w col (mkFrames i m (Doc.joinList sepDoc (fieldDocs fs)) ++ st) [] =
-        ps ++ printLoop w col' st [] ∧ ItemsP (isBrk m) fs ps
+    ∃ ps' ps col', printLoop w col (mkFrames i m (Doc.joinList sepDoc (fieldDocs fs)) ++ st) [] =
+        ps' ++ printLoop w col' st [] ∧ renderPieces ps' = renderPieces ps ∧ ItemsP (isBrk m) fs ps
 
-theorem itemsPrintAs_one {f : T} (h : PrintsAs (termDoc f) f) : ItemsPrintAs [f] := by
+theorem itemsPrintAs_one {f : F} (h : PrintsAs (fieldDocOf f) (LayF f)) : ItemsPrintAs [f] := by
   intro w col i m st
   simp only [fieldDocs, Doc.joinList, mkFrames, List.cons_append, List.nil_append]
-  obtain ⟨ps, col', hp, hl⟩ := printsAs_fieldDoc h w col i m st
-  exact ⟨ps, col', hp, .one hl⟩
+  obtain ⟨ps', ps, col', hp, hr, hl⟩ := h w col i m st
+  exact ⟨ps', ps, col', hp, hr, .one hl⟩
 
-theorem itemsPrintAs_cons {f g : T} {fs : List T} (h : PrintsAs (termDoc f) f)
+theorem itemsPrintAs_cons {f g : F} {fs : List F} (h : PrintsAs (fieldDocOf f) (LayF f))
     (ht : ItemsPrintAs (g :: fs)) : ItemsPrintAs (f :: g :: fs) := by
   intro w col i m st
   have hj : Doc.joinList sepDoc (fieldDocs (f :: g :: fs)) =
-      fieldDoc (termDoc f) :: sepDoc :: Doc.joinList sepDoc (fieldDocs (g :: fs)) := by
+      fieldDocOf f :: sepDoc :: Doc.joinList sepDoc (fieldDocs (g :: fs)) := by
     simp [fieldDocs, Doc.joinList]
   rw [hj]
   simp only [mkFrames, List.cons_append]
-  obtain ⟨ps, col1, hp, hl⟩ := printsAs_fieldDoc h w col i m
+  obtain ⟨ps', ps, col1, hp, hr, hl⟩ := h w col i m
     (⟨i, m, sepDoc⟩ :: (mkFrames i m (Doc.joinList sepDoc (fieldDocs (g :: fs))) ++ st))
   rw [hp]
   cases m with
   | flat =>
     rw [pl_sep_flat]
-    obtain ⟨rest, col2, hr, hi⟩ := ht w (col1 + 1 + 1) i .flat st
-    rw [hr]
-    exact ⟨ps ++ .atom [','] :: .sp :: rest, col2, by simp, .consFlat hl hi⟩
+    obtain ⟨rest', rest, col2, hq, hr2, hi⟩ := ht w (col1 + 1 + 1) i .flat st
+    rw [hq]
+    exact ⟨ps' ++ .atom [','] :: .sp :: rest', ps ++ .atom [','] :: .sp :: rest, col2, by simp,
+      by simp [renderPieces_append, renderPieces, hr, hr2], .consFlat hl hi⟩
   | brk =>
     rw [pl_sep_brk]
-    obtain ⟨rest, col2, hr, hi⟩ := ht w i i .brk st
-    rw [hr]
-    exact ⟨ps ++ .atom [','] :: .nl i :: rest, col2, by simp, .consBrk i hl hi⟩
+    obtain ⟨rest', rest, col2, hq, hr2, hi⟩ := ht w i i .brk st
+    rw [hq]
+    exact ⟨ps' ++ .atom [','] :: .nl i :: rest', ps ++ .atom [','] :: .nl i :: rest, col2, by simp,
+      by simp [renderPieces_append, renderPieces, hr, hr2], .consBrk i hl hi⟩
 
 /-- `bracketed` around the items prints a tuple layout -/
-theorem printsAs_bracketed {f : T} {fs : List T} (h : ItemsPrintAs (f :: fs)) :
-    PrintsAs (bracketed ['['] (fieldDocs (f :: fs))) (.tup (f :: fs)) := by
+theorem printsAs_bracketed {name : Option Str} {f : F} {fs : List F} (hn : optOk isTupleNameStr name)
+    (h : ItemsPrintAs (f :: fs)) :
+    PrintsAs (bracketed (openText name) (fieldDocs (f :: fs))) (LayP (.tup name (f :: fs))) := by
   intro w col i m st
   unfold bracketed Doc.mkGroup
   obtain ⟨m', hg⟩ := pl_group w col i m st
-    (.concat [.text ['['], .nest 2 (.concat [.softline,
+    (.concat [.text (openText name), .nest 2 (.concat [.softline,
       Doc.join (.concat [.text [','], .line]) (fieldDocs (f :: fs)), .ifBreak (.text [',']) .nil]),
       .softline, .text [']']])
-    (forcesBreak (.concat [.text ['['], .nest 2 (.concat [.softline,
+    (forcesBreak (.concat [.text (openText name), .nest 2 (.concat [.softline,
       Doc.join (.concat [.text [','], .line]) (fieldDocs (f :: fs)), .ifBreak (.text [',']) .nil]),
       .softline, .text [']']]))
   rw [hg]
@@ -169,257 +148,181 @@ theorem printsAs_bracketed {f : T} {fs : List T} (h : ItemsPrintAs (f :: fs)) :
   | flat =>
     simp only [pl_concat, mkFrames, List.cons_append, List.nil_append, pl_text, pl_nest,
       pl_softline_flat, Doc.join]
-    obtain ⟨items, col1, hp, hi⟩ := h w (col + ['['].length) (i + 2) .flat
+    obtain ⟨items', items, col1, hp, hr, hi⟩ := h w (col + (openText name).length) (i + 2) .flat
       (⟨i + 2, .flat, .ifBreak (.text [',']) .nil⟩ :: ⟨i, .flat, .softline⟩ :: ⟨i, .flat, .text [']']⟩ :: st)
     rw [show Doc.concat [Doc.text [','], Doc.line] = sepDoc from rfl, hp]
     simp only [pl_ifBreak_flat, pl_nil, pl_softline_flat, pl_text]
-    exact ⟨.atom ['['] :: (items ++ [.atom [']']]), col1 + [']'].length, by simp, .flat hi⟩
+    exact ⟨.atom (openText name) :: (items' ++ [.atom [']']]), .atom (openText name) :: (items ++ [.atom [']']]),
+      col1 + [']'].length, by simp, by simp [renderPieces_append, renderPieces, hr], .flat hn hi⟩
   | brk =>
     simp only [pl_concat, mkFrames, List.cons_append, List.nil_append, pl_text, pl_nest,
       pl_softline_brk, Doc.join]
-    obtain ⟨items, col1, hp, hi⟩ := h w (i + 2) (i + 2) .brk
+    obtain ⟨items', items, col1, hp, hr, hi⟩ := h w (i + 2) (i + 2) .brk
       (⟨i + 2, .brk, .ifBreak (.text [',']) .nil⟩ :: ⟨i, .brk, .softline⟩ :: ⟨i, .brk, .text [']']⟩ :: st)
     rw [show Doc.concat [Doc.text [','], Doc.line] = sepDoc from rfl, hp]
     simp only [pl_ifBreak_brk, pl_softline_brk, pl_text]
-    exact ⟨.atom ['['] :: .nl (i + 2) :: (items ++ [.atom [','], .nl i, .atom [']']]),
-      i + [']'].length, by simp, .brk (i + 2) i hi⟩
+    exact ⟨.atom (openText name) :: .nl (i + 2) :: (items' ++ [.atom [','], .nl i, .atom [']']]),
+      .atom (openText name) :: .nl (i + 2) :: (items ++ [.atom [','], .nl i, .atom [']']]),
+      i + [']'].length, by simp, by simp [renderPieces_append, renderPieces, hr], .brk (i + 2) i hn hi⟩
 
 mutual
 /-- Whatever the width, the column, the indentation, the mode of the enclosing group and the rest of
     the stack: the engine prints `termDoc t` as one of the layouts of `t`, then goes on with the rest. -/
-theorem printLoop_term : (t : T) → T.WF t → PrintsAs (termDoc t) t
+theorem printLoop_term : (t : T) → T.WF t → PrintsAs (termDoc t) (LayP t)
   | .leaf n, hwf => by
     intro w col i m st
     simp only [termDoc, pl_text]
-    exact ⟨[.atom n], col + n.length, by simp, .leaf hwf⟩
-  | .tup [], _ => by
+    exact ⟨[.atom n], [.atom n], col + n.length, by simp, rfl, .leaf hwf⟩
+  | .tup name [], hwf => by
     intro w col i m st
     simp only [termDoc, List.isEmpty_nil, if_true, pl_text]
-    exact ⟨[.atom ['[', ']']], col + ['[', ']'].length, by simp, .empty⟩
-  | .tup (f :: fs), hwf => by
-    have h := printLoop_items (f :: fs) (by simp) hwf
-    have := printsAs_bracketed h
+    exact ⟨[.atom (emptyText name)], [.atom (emptyText name)], col + (emptyText name).length, by simp, rfl,
+      .empty hwf.1⟩
+  | .tup name (f :: fs), hwf => by
+    have h := printLoop_items (f :: fs) (by simp) hwf.2
+    have := printsAs_bracketed hwf.1 h
     simpa [termDoc] using this
-theorem printLoop_items : (fs : List T) → fs ≠ [] → T.WFList fs → ItemsPrintAs fs
+theorem printLoop_field : (f : F) → F.WF f → PrintsAs (fieldDocOf f) (LayF f)
+  | .mk none t, hwf => by
+    have := printsAs_fieldDoc (printsAs_chainDoc (printLoop_term t hwf.2))
+    simpa [fieldDocOf] using this.mono (fun ps h => LayF.unnamed h)
+  | .mk (some l) t, hwf => by
+    have := printsAs_fieldDoc (printsAs_labelled hwf.1 (printsAs_chainDoc (printLoop_term t hwf.2)))
+    simpa [fieldDocOf] using this
+theorem printLoop_items : (fs : List F) → fs ≠ [] → F.WFList fs → ItemsPrintAs fs
   | [], hne, _ => absurd rfl hne
-  | [f], _, hwf => itemsPrintAs_one (printLoop_term f hwf.1)
+  | [f], _, hwf => itemsPrintAs_one (printLoop_field f hwf.1)
   | f :: g :: fs, _, hwf =>
-    itemsPrintAs_cons (printLoop_term f hwf.1) (printLoop_items (g :: fs) (by simp) hwf.2)
+    itemsPrintAs_cons (printLoop_field f hwf.1) (printLoop_items (g :: fs) (by simp) hwf.2)
 end
 
-/-! ### 3. A layout has no white space before a line break or at its end -/
+/-! ### 3. Layouts are tidy and NUL-free -/
 
-/-- a printed atom: not empty, no white space in it -/
-def goodAtom (s : List Char) : Bool := !s.isEmpty && s.all (fun c => !isWhitespace c)
-
-/-- The pieces leave no white space before a line break or at the end; the flag says whether the
-    text so far ends in an atom (or is empty). -/
-def tidyPs : Bool → List Piece → Bool
-  | b, [] => b
-  | _, .atom s :: r => goodAtom s && tidyPs true r
-  | _, .sp :: r => tidyPs false r
-  | b, .nl _ :: r => b && tidyPs false r
-
-theorem rustLinesAux_append (s : List Char) (hs : s.all (· ≠ '\n') = true) (cur rest : List Char) :
-    rustLinesAux cur (s ++ rest) = rustLinesAux (s.reverse ++ cur) rest := by
-  induction s generalizing cur with
-  | nil => simp
-  | cons c s ih =>
-    simp only [List.all_cons, Bool.and_eq_true, decide_eq_true_eq] at hs
-    simp only [List.cons_append, rustLinesAux, hs.1, if_false]
-    rw [ih hs.2]; simp
-
-theorem rustLinesAux_ne_nil (s cur : List Char) (h : cur ≠ [] ∨ s ≠ []) : rustLinesAux cur s ≠ [] := by
-  induction s generalizing cur with
-  | nil =>
-    rcases h with h | h
-    · cases cur with
-      | nil => exact absurd rfl h
-      | cons c t => simp [rustLinesAux]
-    · exact absurd rfl h
-  | cons c s ih =>
-    simp only [rustLinesAux]
-    split
-    · simp
-    · exact ih _ (.inl (by simp))
-
-theorem joinNl_cons_ne (a : List Char) {L : List (List Char)} (h : L ≠ []) :
-    joinNl (a :: L) = a ++ '\n' :: joinNl L := by
-  cases L with
-  | nil => exact absurd rfl h
-  | cons b L => rfl
-
-theorem trimEnd_reverse_cons (c : Char) (t : List Char) (h : isWhitespace c = false) :
-    trimEnd ((c :: t).reverse) = (c :: t).reverse := by
-  simp [trimEnd, h]
-
-theorem isWhitespace_nl : isWhitespace '\n' = true := by decide
-theorem isWhitespace_cr : isWhitespace '\r' = true := by decide
-theorem isWhitespace_space : isWhitespace ' ' = true := by decide
-
-theorem all_ne_nl_of_not_ws {s : List Char} (h : s.all (fun c => !isWhitespace c) = true) :
-    s.all (· ≠ '\n') = true := by
-  simp only [List.all_eq_true, Bool.not_eq_true', decide_eq_true_eq] at h ⊢
-  intro c hc e
-  have := h c hc
-  rw [e, isWhitespace_nl] at this
-  exact Bool.noConfusion this
-
-theorem renderPieces_ne_nil_of_tidy {r : List Piece} (h : tidyPs false r = true) : renderPieces r ≠ [] := by
-  cases r with
-  | nil => simp [tidyPs] at h
-  | cons p r =>
-    cases p with
-    | atom s =>
-      simp only [tidyPs, goodAtom, Bool.and_eq_true, Bool.not_eq_true', List.isEmpty_eq_false_iff] at h
-      simp [renderPieces, Piece.render, h.1.1]
-    | sp => simp [renderPieces, Piece.render]
-    | nl k => simp [tidyPs] at h
-
-/-- the last character so far is not white space (if the flag claims an atom) -/
-def CurOk (b : Bool) (cur : List Char) : Prop :=
-  b = true → cur = [] ∨ ∃ c t, cur = c :: t ∧ isWhitespace c = false
-
-theorem strip_aux (ps : List Piece) : ∀ (b : Bool) (cur : List Char), tidyPs b ps = true → CurOk b cur →
-    joinNl ((rustLinesAux cur (renderPieces ps)).map trimEnd) = cur.reverse ++ renderPieces ps := by
-  induction ps with
-  | nil =>
-    intro b cur hb hc
-    simp only [tidyPs] at hb
-    rcases hc hb with rfl | ⟨c, t, rfl, hw⟩
-    · simp [renderPieces, rustLinesAux, joinNl]
-    · simp only [renderPieces, rustLinesAux, List.isEmpty_cons, Bool.false_eq_true, if_false, List.map_cons,
-        List.map_nil, joinNl, List.append_nil]
-      exact trimEnd_reverse_cons c t hw
-  | cons p r ih =>
-    intro b cur hb hc
-    cases p with
-    | atom s =>
-      simp only [tidyPs, goodAtom, Bool.and_eq_true, Bool.not_eq_true', List.isEmpty_eq_false_iff] at hb
-      obtain ⟨⟨hne, hall⟩, hr⟩ := hb
-      simp only [renderPieces, Piece.render]
-      rw [rustLinesAux_append s (all_ne_nl_of_not_ws hall), ih true (s.reverse ++ cur) hr]
-      · simp
-      · intro _
-        right
-        cases hs : s.reverse with
-        | nil => exact absurd (List.reverse_eq_nil_iff.mp hs) hne
-        | cons c t =>
-          refine ⟨c, t ++ cur, by simp, ?_⟩
-          have hm : c ∈ s := by
-            have : c ∈ s.reverse := by rw [hs]; simp
-            simpa using this
-          simpa using (List.all_eq_true.mp hall) c hm
-    | sp =>
-      simp only [tidyPs] at hb
-      simp only [renderPieces, Piece.render, List.cons_append, List.nil_append, rustLinesAux,
-        show ¬ (' ' = '\n') by decide, if_false]
-      rw [ih false (' ' :: cur) hb (by intro h; exact Bool.noConfusion h)]
-      simp
-    | nl k =>
-      simp only [tidyPs, Bool.and_eq_true] at hb
-      obtain ⟨hbt, hr⟩ := hb
-      simp only [renderPieces, Piece.render, List.cons_append, rustLinesAux, if_true]
-      have hrep : (List.replicate k ' ').all (· ≠ '\n') = true := by
-        simp only [List.all_eq_true, decide_eq_true_eq]
-        intro c hc; rw [List.eq_of_mem_replicate hc]; decide
-      rw [rustLinesAux_append _ hrep]
-      have hne : rustLinesAux ((List.replicate k ' ').reverse ++ []) (renderPieces r) ≠ [] :=
-        rustLinesAux_ne_nil _ _ (.inr (renderPieces_ne_nil_of_tidy hr))
-      have hih := ih false ((List.replicate k ' ').reverse ++ []) hr (by intro h; exact Bool.noConfusion h)
-      simp only [List.map_cons]
-      rw [joinNl_cons_ne _ (by simpa using hne), hih]
-      rcases hc hbt with rfl | ⟨c, t, rfl, hw⟩
-      · simp [trimEnd]
-      · have hcr : c ≠ '\r' := by
-          intro e; rw [e, isWhitespace_cr] at hw; exact Bool.noConfusion hw
-        split
-        · rename_i cur' heq
-          exact absurd (List.cons.inj heq).1 hcr
-        · rw [trimEnd_reverse_cons c t hw]
-          simp
-
-/-- `strip_trailing_whitespace` leaves a tidy text alone -/
-theorem strip_renderPieces {ps : List Piece} (h : tidyPs true ps = true) :
-    stripTrailingWhitespace (renderPieces ps) = renderPieces ps := by
-  have := strip_aux ps true [] h (fun _ => .inl rfl)
-  simpa [stripTrailingWhitespace, rustLines] using this
-
-/-! Layouts are tidy. -/
-
-theorem lower_ne {c : Char} (h : isLower c = true) (d : Char) (hd : d.toNat < 97) : c ≠ d := by
+theorem upper_ne {c : Char} (h : isUpper c = true) (d : Char) (hd : d.toNat < 65 ∨ 90 < d.toNat) : c ≠ d := by
   intro e; subst e
-  simp only [isLower, Bool.and_eq_true, decide_eq_true_eq] at h
+  simp only [isUpper, Bool.and_eq_true, decide_eq_true_eq] at h
   omega
 
-theorem not_ws_of_lower {c : Char} (h : isLower c = true) : isWhitespace c = false := by
-  simp only [isLower, Bool.and_eq_true, decide_eq_true_eq] at h
-  simp only [isWhitespace]
-  generalize c.toNat = n at h
-  simp only [Bool.or_eq_false_iff, Bool.and_eq_false_iff, decide_eq_false_iff_not, beq_eq_false_iff_ne]
-  omega
+theorem identBody_of_upper {c : Char} (h : isUpper c = true) : isIdentBody c = true := by
+  simp [isIdentBody, h]
 
-theorem not_ws_of_identBody {c : Char} (h : isIdentBody c = true) : isWhitespace c = false := by
-  simp only [isIdentBody, isLower, isUpper, isDigit, Bool.or_eq_true, Bool.and_eq_true, decide_eq_true_eq] at h
-  simp only [isWhitespace]
-  have h95 : c = '_' → c.toNat = 95 := by intro e; subst e; rfl
-  generalize c.toNat = n at h h95
-  simp only [Bool.or_eq_false_iff, Bool.and_eq_false_iff, decide_eq_false_iff_not, beq_eq_false_iff_ne]
-  rcases h with ((h | h) | h) | h
-  · omega
-  · omega
-  · omega
-  · have := h95 h; omega
+theorem identBody_ne_nul {c : Char} (h : isIdentBody c = true) : c ≠ '\x00' := by
+  intro e; rw [e] at h; exact absurd h (by decide)
 
-theorem goodAtom_ident {n : Str} (h : isIdentStr n = true) : goodAtom n = true := by
+theorem goodAtom_tupleName {n : Str} (h : isTupleNameStr n = true) : goodAtom n = true := by
   cases n with
-  | nil => simp [isIdentStr] at h
+  | nil => simp [isTupleNameStr] at h
   | cons c r =>
-    simp only [isIdentStr, Bool.and_eq_true, Bool.or_eq_true, decide_eq_true_eq] at h
-    obtain ⟨hc, hsuf⟩ := h
-    have hsplit : r = r.takeWhile isIdentBody ++ r.dropWhile isIdentBody :=
-      List.takeWhile_append_dropWhile.symm
-    have h1 : (r.takeWhile isIdentBody).all (fun c => !isWhitespace c) = true := by
-      have := all_takeWhile isIdentBody r
-      simp only [List.all_eq_true, Bool.not_eq_true'] at this ⊢
-      intro x hx; exact not_ws_of_identBody (this x hx)
-    have h2 : (r.dropWhile isIdentBody).all (fun c => !isWhitespace c) = true := by
-      rcases hsuf with ((e | e) | e) | e <;> rw [e] <;> decide
+    simp only [isTupleNameStr, Bool.and_eq_true] at h
     have hr : r.all (fun c => !isWhitespace c) = true := by
-      rw [hsplit, List.all_append, h1, h2]; rfl
-    simp [goodAtom, not_ws_of_lower hc, hr]
+      simp only [List.all_eq_true, Bool.not_eq_true'] at h ⊢
+      intro x hx; exact not_ws_of_identBody (h.2 x hx)
+    simp [goodAtom, not_ws_of_identBody (identBody_of_upper h.1), hr]
+
+theorem tupleName_nulFree {n : Str} (h : isTupleNameStr n = true) : n.all (· ≠ '\x00') = true := by
+  cases n with
+  | nil => simp [isTupleNameStr] at h
+  | cons c r =>
+    simp only [isTupleNameStr, Bool.and_eq_true] at h
+    simp only [List.all_cons, Bool.and_eq_true, decide_eq_true_eq, List.all_eq_true]
+    exact ⟨identBody_ne_nul (identBody_of_upper h.1), fun x hx => identBody_ne_nul ((List.all_eq_true.mp h.2) x hx)⟩
+
+theorem goodAtom_snoc {a : Str} {c : Char} (h : goodAtom a = true) (hc : isWhitespace c = false) :
+    goodAtom (a ++ [c]) = true := by
+  simp only [goodAtom, Bool.and_eq_true, Bool.not_eq_true', List.isEmpty_eq_false_iff] at h ⊢
+  refine ⟨by simp, ?_⟩
+  rw [List.all_append, h.2]; simp [hc]
+
+theorem good_empty {name : Option Str} (hn : optOk isTupleNameStr name) : goodAtom (emptyText name) = true := by
+  cases name with
+  | none => decide
+  | some n => exact goodAtom_tupleName hn
+
+theorem good_open {name : Option Str} (hn : optOk isTupleNameStr name) : goodAtom (openText name) = true := by
+  cases name with
+  | none => decide
+  | some n => exact goodAtom_snoc (goodAtom_tupleName hn) (by decide)
+
+theorem nul_empty {name : Option Str} (hn : optOk isTupleNameStr name) :
+    (emptyText name).all (· ≠ '\x00') = true := by
+  cases name with
+  | none => decide
+  | some n => exact tupleName_nulFree hn
+
+theorem nul_open {name : Option Str} (hn : optOk isTupleNameStr name) :
+    (openText name).all (· ≠ '\x00') = true := by
+  cases name with
+  | none => decide
+  | some n =>
+    simp only [openText, Option.getD_some, List.all_append, tupleName_nulFree hn]
+    decide
 
 mutual
 theorem layP_tidy : ∀ {t : T} {ps : List Piece}, LayP t ps →
     ∀ (b : Bool) (r : List Piece), tidyPs true r = true → tidyPs b (ps ++ r) = true
   | _, _, .leaf hn, b, r, hr => by simp [tidyPs, goodAtom_ident hn, hr]
-  | _, _, .empty, b, r, hr => by
-    have : goodAtom ['[', ']'] = true := by decide
-    simp [tidyPs, this, hr]
-  | _, _, .flat hi, b, r, hr => by
-    have h1 : goodAtom ['['] = true := by decide
+  | _, _, .empty hn, b, r, hr => by simp [tidyPs, good_empty hn, hr]
+  | _, _, .flat hn hi, b, r, hr => by
     have h2 : goodAtom [']'] = true := by decide
     have := itemsP_tidy hi true (.atom [']'] :: r) (by simp [tidyPs, h2, hr])
-    simpa [tidyPs, h1] using this
-  | _, _, .brk k1 k2 hi, b, r, hr => by
-    have h1 : goodAtom ['['] = true := by decide
+    simpa [tidyPs, good_open hn] using this
+  | _, _, .brk k1 k2 hn hi, b, r, hr => by
     have h2 : goodAtom [']'] = true := by decide
     have h3 : goodAtom [','] = true := by decide
     have := itemsP_tidy hi false (.atom [','] :: .nl k2 :: .atom [']'] :: r) (by simp [tidyPs, h2, h3, hr])
-    simpa [tidyPs, h1] using this
-theorem itemsP_tidy : ∀ {bk : Bool} {fs : List T} {ps : List Piece}, ItemsP bk fs ps →
+    simpa [tidyPs, good_open hn] using this
+theorem layF_tidy : ∀ {f : F} {ps : List Piece}, LayF f ps →
     ∀ (b : Bool) (r : List Piece), tidyPs true r = true → tidyPs b (ps ++ r) = true
-  | _, _, _, .one hl, b, r, hr => layP_tidy hl b r hr
+  | _, _, .unnamed hl, b, r, hr => layP_tidy hl b r hr
+  | _, _, .named hn hl, b, r, hr => by
+    have := layP_tidy hl false r hr
+    simpa [tidyPs, goodAtom_snoc (goodAtom_ident hn) (show isWhitespace ':' = false by decide)] using this
+theorem itemsP_tidy : ∀ {bk : Bool} {fs : List F} {ps : List Piece}, ItemsP bk fs ps →
+    ∀ (b : Bool) (r : List Piece), tidyPs true r = true → tidyPs b (ps ++ r) = true
+  | _, _, _, .one hl, b, r, hr => layF_tidy hl b r hr
   | _, _, _, .consFlat hl hi, b, r, hr => by
     have h3 : goodAtom [','] = true := by decide
     have h := itemsP_tidy hi false r hr
-    have := layP_tidy hl b (.atom [','] :: .sp :: (_ ++ r)) (by simpa [tidyPs, h3] using h)
+    have := layF_tidy hl b (.atom [','] :: .sp :: (_ ++ r)) (by simpa [tidyPs, h3] using h)
     simpa using this
   | _, _, _, .consBrk k hl hi, b, r, hr => by
     have h3 : goodAtom [','] = true := by decide
     have h := itemsP_tidy hi false r hr
-    have := layP_tidy hl b (.atom [','] :: .nl k :: (_ ++ r)) (by simpa [tidyPs, h3] using h)
+    have := layF_tidy hl b (.atom [','] :: .nl k :: (_ ++ r)) (by simpa [tidyPs, h3] using h)
     simpa using this
+end
+
+mutual
+theorem layP_nulFree : ∀ {t : T} {ps : List Piece}, LayP t ps → nulFree ps = true
+  | _, _, .leaf hn => by
+    simp only [nulFree, Bool.and_eq_true]
+    exact ⟨ident_nulFree hn, trivial⟩
+  | _, _, .empty hn => by
+    simp only [nulFree, Bool.and_eq_true]
+    exact ⟨nul_empty hn, trivial⟩
+  | _, _, .flat hn hi => by
+    have := itemsP_nulFree hi
+    have ho := nul_open hn
+    simp only [List.all_eq_true, decide_eq_true_eq] at ho
+    simpa [nulFree, nulFree_append, this] using ho
+  | _, _, .brk k1 k2 hn hi => by
+    have := itemsP_nulFree hi
+    have ho := nul_open hn
+    simp only [List.all_eq_true, decide_eq_true_eq] at ho
+    simpa [nulFree, nulFree_append, this] using ho
+theorem layF_nulFree : ∀ {f : F} {ps : List Piece}, LayF f ps → nulFree ps = true
+  | _, _, .unnamed hl => layP_nulFree hl
+  | _, _, .named hn hl => by
+    have h1 := ident_nulFree hn
+    have h2 := layP_nulFree hl
+    simp only [nulFree, List.all_append, h1, h2]
+    decide
+theorem itemsP_nulFree : ∀ {bk : Bool} {fs : List F} {ps : List Piece}, ItemsP bk fs ps → nulFree ps = true
+  | _, _, _, .one hl => layF_nulFree hl
+  | _, _, _, .consFlat hl hi => by
+    simp [nulFree, nulFree_append, layF_nulFree hl, itemsP_nulFree hi]
+  | _, _, _, .consBrk k hl hi => by
+    simp [nulFree, nulFree_append, layF_nulFree hl, itemsP_nulFree hi]
 end
 
 /-- the text of a layout is what `print` returns for it -/
@@ -429,41 +332,76 @@ theorem strip_layP {t : T} {ps : List Piece} (h : LayP t ps) :
   rw [List.append_nil] at this
   exact strip_renderPieces this
 
+/-- both post-passes of `format_program` on a layout -/
+theorem post_passes_layP {t : T} {ps : List Piece} (h : LayP t ps) :
+    collapseBlanks (renderPieces ps) = renderPieces ps ++ ['\n'] ∧
+    expandLiterals (renderPieces ps ++ ['\n']) [] = some (renderPieces ps ++ ['\n']) := by
+  have ht := layP_tidy h false [] rfl
+  rw [List.append_nil] at ht
+  exact post_passes ht (layP_nulFree h)
+
 /-! ### 4. The parser reads a layout back -/
 
-/-- a layout starts with `[` or a lower-case letter -/
-def HeadOk (s : Str) : Prop := ∃ c r, s = c :: r ∧ (c = '[' ∨ isLower c = true)
+/-- a layout starts with `[`, a lower-case letter (identifier, field label) or an upper-case letter
+    (tuple name) -/
+def HeadOk (s : Str) : Prop := ∃ c r, s = c :: r ∧ (c = '[' ∨ isLower c = true ∨ isUpper c = true)
 
 theorem HeadOk.append {s : Str} (h : HeadOk s) (x : Str) : HeadOk (s ++ x) := by
   obtain ⟨c, r, rfl, hc⟩ := h
   exact ⟨c, r ++ x, rfl, hc⟩
 
-mutual
-theorem layP_head : ∀ {t : T} {ps : List Piece}, LayP t ps → HeadOk (renderPieces ps)
-  | _, _, .leaf (n := n) hn => by
-    cases n with
-    | nil => simp [isIdentStr] at hn
-    | cons c r =>
-      simp only [isIdentStr, Bool.and_eq_true] at hn
-      exact ⟨c, r ++ [], by simp [renderPieces, Piece.render], .inr hn.1⟩
-  | _, _, .empty => ⟨'[', _, rfl, .inl rfl⟩
-  | _, _, .flat _ => ⟨'[', _, rfl, .inl rfl⟩
-  | _, _, .brk _ _ _ => ⟨'[', _, rfl, .inl rfl⟩
-end
+theorem headOk_ident {n : Str} (h : isIdentStr n = true) : HeadOk n := by
+  cases n with
+  | nil => simp [isIdentStr] at h
+  | cons c r =>
+    simp only [isIdentStr, Bool.and_eq_true] at h
+    exact ⟨c, r, rfl, .inr (.inl h.1)⟩
 
-theorem itemsP_head {bk : Bool} {fs : List T} {ps : List Piece} (h : ItemsP bk fs ps) :
+theorem headOk_tupleName {n : Str} (h : isTupleNameStr n = true) : HeadOk n := by
+  cases n with
+  | nil => simp [isTupleNameStr] at h
+  | cons c r =>
+    simp only [isTupleNameStr, Bool.and_eq_true] at h
+    exact ⟨c, r, rfl, .inr (.inr h.1)⟩
+
+theorem headOk_open {name : Option Str} (hn : optOk isTupleNameStr name) (x : Str) :
+    HeadOk (openText name ++ x) := by
+  cases name with
+  | none => exact ⟨'[', x, rfl, .inl rfl⟩
+  | some n => simpa [openText] using (headOk_tupleName hn).append ('[' :: x)
+
+theorem layP_head {t : T} {ps : List Piece} (h : LayP t ps) : HeadOk (renderPieces ps) := by
+  cases h with
+  | leaf hn => simpa [renderPieces, Piece.render] using headOk_ident hn
+  | empty hn =>
+    rename_i name
+    cases name with
+    | none => exact ⟨'[', _, rfl, .inl rfl⟩
+    | some n => simpa [renderPieces, Piece.render, emptyText] using headOk_tupleName hn
+  | flat hn _ => exact headOk_open hn _
+  | brk k1 k2 hn _ => exact headOk_open hn _
+
+theorem layF_head {f : F} {ps : List Piece} (h : LayF f ps) : HeadOk (renderPieces ps) := by
+  cases h with
+  | unnamed hl => exact layP_head hl
+  | named hn hl =>
+    rename_i l t ps0
+    have := ((headOk_ident hn).append [':']).append (' ' :: renderPieces ps0)
+    simpa [renderPieces, Piece.render] using this
+
+theorem itemsP_head {bk : Bool} {fs : List F} {ps : List Piece} (h : ItemsP bk fs ps) :
     HeadOk (renderPieces ps) := by
   cases h with
-  | one hl => exact layP_head hl
-  | consFlat hl _ => rw [renderPieces_append]; exact (layP_head hl).append _
-  | consBrk k hl _ => rw [renderPieces_append]; exact (layP_head hl).append _
+  | one hl => exact layF_head hl
+  | consFlat hl _ => rw [renderPieces_append]; exact (layF_head hl).append _
+  | consBrk k hl _ => rw [renderPieces_append]; exact (layF_head hl).append _
 
 theorem headAll_cons (f : Char → Bool) (c : Char) (r : Str) : headAll f (c :: r) = f c := rfl
 
 theorem headOk_stop {s : Str} (h : HeadOk s) :
     headAll (fun c => !isMultispace c && c != '/') s = true := by
   obtain ⟨c, r, rfl, hc⟩ := h
-  rcases hc with rfl | hc
+  rcases hc with rfl | hc | hc
   · rw [headAll_cons]; decide
   · have h1 := lower_ne hc ' ' (by decide)
     have h2 := lower_ne hc '\t' (by decide)
@@ -471,6 +409,18 @@ theorem headOk_stop {s : Str} (h : HeadOk s) :
     have h4 := lower_ne hc '\n' (by decide)
     have h5 := lower_ne hc '/' (by decide)
     simp [headAll, isMultispace, h1, h2, h3, h4, h5]
+  · have h1 := upper_ne hc ' ' (by decide)
+    have h2 := upper_ne hc '\t' (by decide)
+    have h3 := upper_ne hc '\r' (by decide)
+    have h4 := upper_ne hc '\n' (by decide)
+    have h5 := upper_ne hc '/' (by decide)
+    simp [headAll, isMultispace, h1, h2, h3, h4, h5]
+
+theorem headOk_not_ms {s : Str} (h : HeadOk s) : s.dropWhile isMultispace = s := by
+  have := headOk_stop h
+  obtain ⟨c, r, rfl, _⟩ := h
+  simp only [headAll_cons, Bool.and_eq_true, Bool.not_eq_true'] at this
+  simp [this.1]
 
 theorem skipWsc_ms {c : Char} (h : isMultispace c = true) (R : Str) :
     skipWsc false (c :: R) = skipWsc false R := by
@@ -500,24 +450,69 @@ theorem headOk_close (rest : Str) : headAll (fun c => !isMultispace c && c != '/
 theorem headOk_comma (rest : Str) : headAll (fun c => !isMultispace c && c != '/') (',' :: rest) = true := by
   rw [headAll_cons]; decide
 
+/-- What may follow a term of the fragment: nothing that continues a name (`IdStop`), opens a field
+    list (`[`), makes the term a field label (`:`) or — after white space — a partial pattern (`(`). -/
+def Stop (rest : Str) : Prop :=
+  IdStop rest ∧ headAll (fun c => c != '[' && c != ':') rest = true ∧
+    headAll (fun c => c != '(') (rest.dropWhile isMultispace) = true
+
+theorem stop_comma (r : Str) : Stop (',' :: r) := by
+  refine ⟨by simp [IdStop]; decide, by rw [headAll_cons]; decide, ?_⟩
+  rw [show (',' :: r).dropWhile isMultispace = ',' :: r by
+    rw [List.dropWhile_cons, show isMultispace ',' = false by decide]; rfl, headAll_cons]
+  decide
+theorem stop_close (r : Str) : Stop (']' :: r) := by
+  refine ⟨by simp [IdStop]; decide, by rw [headAll_cons]; decide, ?_⟩
+  rw [show (']' :: r).dropWhile isMultispace = ']' :: r by
+    rw [List.dropWhile_cons, show isMultispace ']' = false by decide]; rfl, headAll_cons]
+  decide
+theorem stop_nil : Stop [] := ⟨trivial, rfl, rfl⟩
+theorem stop_nl : Stop ['\n'] := by
+  refine ⟨by simp [IdStop]; decide, by rw [headAll_cons]; decide, by decide⟩
+
+theorem Stop.noBody {rest : Str} (h : Stop rest) : ∀ c t, rest = c :: t → isIdentBody c = false := by
+  intro c t e; subst e; exact h.1.1
+
 theorem sound_commaWsc : Sound commaWsc :=
   Sound.seq Sound.wsc (Sound.seq (Sound.pchar _) Sound.wsc)
 
+theorem fieldP_sound {term : P T} (h : Sound term) : Sound (fieldP term) :=
+  Sound.alt
+    (Sound.bind Sound.identifier fun _ => Sound.seq (Sound.pchar _) (Sound.seq Sound.ws1 (Sound.pmap h)))
+    (Sound.pmap h)
+
+theorem bracketsP_sound {field : P F} (h : Sound field) : Sound (bracketsP field) :=
+  Sound.delimited (Sound.seq (Sound.pchar _) Sound.wsc)
+    (Sound.before (Sound.sepList0 sound_commaWsc h) (Sound.opt (Sound.seq Sound.wsc (Sound.pchar _))))
+    (Sound.seq Sound.wsc (Sound.pchar _))
+
+theorem tupleP_sound {field : P F} (h : Sound field) : Sound (tupleP field) :=
+  Sound.alt (Sound.bind Sound.tupleName fun _ => Sound.pmap (bracketsP_sound h))
+    (Sound.alt (Sound.pmap (bracketsP_sound h))
+      (Sound.bind Sound.tupleName fun _ => Sound.pmap (Sound.peekNot _)))
+
 theorem termP_sound : ∀ n, Sound (termP n)
   | 0 => fun _ => trivial
-  | n + 1 =>
-    Sound.alt
-      (Sound.pmap (Sound.delimited (Sound.seq (Sound.pchar _) Sound.wsc)
-        (Sound.before (Sound.sepList0 sound_commaWsc (termP_sound n))
-          (Sound.opt (Sound.seq Sound.wsc (Sound.pchar _))))
-        (Sound.seq Sound.wsc (Sound.pchar _))))
-      (Sound.pmap Sound.identifier)
+  | n + 1 => Sound.alt (tupleP_sound (fieldP_sound (termP_sound n))) (Sound.pmap Sound.identifier)
+
+theorem bracketsP_fails {field : P F} {s : Str} (h : headAll (· ≠ '[') s = true) :
+    Fails (bracketsP field) s :=
+  Fails.delimited (Fails.seq (pchar_fails_of_head h))
+
+/-- the tuple alternatives fail on a text that starts with neither `[` nor an upper-case letter -/
+theorem tupleP_fails {field : P F} {s : Str} (h1 : headAll (· ≠ '[') s = true)
+    (h2 : headAll (fun c => !isUpper c) s = true) : Fails (tupleP field) s :=
+  Fails.alt (Fails.bind (tupleName_fails_of_head h2))
+    (Fails.alt (Fails.pmap (bracketsP_fails h1)) (Fails.bind (tupleName_fails_of_head h2)))
 
 /-- the term parser fails on a closing bracket -/
-theorem termP_fails_close (n : Nat) (rest : Str) : Fails (termP (n + 1)) (']' :: rest) := by
-  refine Fails.alt ?_ ?_
-  · exact Fails.pmap (Fails.delimited (Fails.seq (pchar_ne (by decide) rest)))
-  · exact Fails.pmap (identifier_fails_of_head (by rw [headAll_cons]; decide))
+theorem termP_fails_close (n : Nat) (rest : Str) : Fails (termP (n + 1)) (']' :: rest) :=
+  Fails.alt (tupleP_fails (by rw [headAll_cons]; decide) (by rw [headAll_cons]; decide))
+    (Fails.pmap (identifier_fails_of_head (by rw [headAll_cons]; decide)))
+
+theorem fieldP_fails_close (n : Nat) (rest : Str) : Fails (fieldP (termP (n + 1))) (']' :: rest) :=
+  Fails.alt (Fails.bind (identifier_fails_of_head (by rw [headAll_cons]; decide)))
+    (Fails.pmap (termP_fails_close n rest))
 
 theorem commaWsc_fails_close (rest : Str) : Fails commaWsc (']' :: rest) :=
   Fails.seq_ok (wsc_of_head (headOk_close rest)) (Fails.seq (pchar_ne (by decide) rest))
@@ -548,33 +543,126 @@ theorem commaWsc_nl_close (k : Nat) (rest : Str) :
   rw [seq_ok (wsc_of_head (headOk_comma _)), seq_ok (pchar_self ',' _)]
   simp [wsc, skipWsc_nl, skipWsc_of_head (headOk_close rest)]
 
-theorem idStop_comma (r : Str) : IdStop (',' :: r) := by simp [IdStop]; decide
-theorem idStop_close (r : Str) : IdStop (']' :: r) := by simp [IdStop]; decide
-
-/-- what `items_lay` provides: the first item, then the loop of `separated_list0` over the others -/
-def ItemsRead (n : Nat) (fs : List T) (s rest : Str) : Prop :=
-  ∃ f fs' r1, fs = f :: fs' ∧ termP n (s ++ rest) = .ok f r1 ∧
-    sepTail commaWsc (termP n) r1 = .ok fs' rest
-
-theorem tupleP_ok {field : P T} {R r1 r2 rest : Str} {fs : List T} {o : Option Unit}
+theorem bracketsP_ok {field : P F} {R r1 r2 rest : Str} {fs : List F} {o : Option Unit}
     (h0 : wsc R = .ok () r1)
     (h1 : sepList0 commaWsc field r1 = .ok fs r2)
     (h2 : opt (seq wsc (pchar ',')) r2 = .ok o (']' :: rest) ∨
           ∃ g, opt (seq wsc (pchar ',')) r2 = .ok o g ∧ seq wsc (pchar ']') g = .ok () rest) :
-    tupleP field ('[' :: R) = .ok (.tup fs) rest := by
-  unfold tupleP delimited
-  refine pmap_ok ?_
+    bracketsP field ('[' :: R) = .ok fs rest := by
+  unfold bracketsP delimited
   rw [seq_ok (r := r1) (a := ()) (by rw [seq_ok (pchar_self '[' R)]; exact h0)]
   rcases h2 with h2 | ⟨g, h2, h3⟩
   · exact before_ok (before_ok h1 h2)
       (by rw [seq_ok (wsc_of_head (headOk_close rest))]; exact pchar_self ']' rest)
   · exact before_ok (before_ok h1 h2) h3
 
+/-- the name in front of the field list -/
+theorem tupleP_open {field : P F} {name : Option Str} {R rest : Str} {fs : List F}
+    (hn : optOk isTupleNameStr name) (h : bracketsP field ('[' :: R) = .ok fs rest) :
+    tupleP field (openText name ++ R) = .ok (.tup name fs) rest := by
+  unfold tupleP
+  cases name with
+  | none =>
+    simp only [openText, Option.getD_none, List.nil_append, List.cons_append]
+    rw [alt_of_fails (Fails.bind (tupleName_fails_of_head (by rw [headAll_cons]; decide)))]
+    exact alt_of_ok (pmap_ok h)
+  | some n =>
+    simp only [openText, Option.getD_some, List.append_assoc, List.cons_append, List.nil_append]
+    refine alt_of_ok ?_
+    rw [bind_ok (tupleName_append hn (by intro c t e; cases e; decide))]
+    exact pmap_ok h
+
+/-- a bare tuple name -/
+theorem tupleP_bare {field : P F} {n rest : Str} (hn : isTupleNameStr n = true) (hs : Stop rest) :
+    tupleP field (n ++ rest) = .ok (.tup (some n) []) rest := by
+  unfold tupleP
+  have hname := tupleName_append hn hs.noBody
+  have hup : headAll (· ≠ '[') (n ++ rest) = true := by
+    cases n with
+    | nil => simp [isTupleNameStr] at hn
+    | cons c r =>
+      simp only [isTupleNameStr, Bool.and_eq_true] at hn
+      have := upper_ne hn.1 '[' (by decide)
+      simp [headAll, this]
+  have hb : headAll (· ≠ '[') rest = true := by
+    have := hs.2.1
+    cases rest with
+    | nil => rfl
+    | cons c t => simp only [headAll_cons, Bool.and_eq_true, bne_iff_ne, ne_eq] at this; simp [headAll, this.1]
+  rw [alt_of_fails (Fails.bind_ok hname (Fails.pmap (bracketsP_fails hb)))]
+  rw [alt_of_fails (Fails.pmap (bracketsP_fails hup))]
+  rw [bind_ok hname]
+  refine pmap_ok (a := ()) (peekNot_of_fails ?_)
+  refine Fails.seq_ok (r := rest.dropWhile isMultispace) (a := ()) (by simp [ws0]) (pchar_fails_of_head ?_)
+  have := hs.2.2
+  cases hd : rest.dropWhile isMultispace with
+  | nil => rfl
+  | cons c t => rw [hd, headAll_cons] at this; simpa [headAll] using this
+
+/-- what `items_lay` provides: the first item, then the loop of `separated_list0` over the others -/
+def ItemsRead (n : Nat) (fs : List F) (s rest : Str) : Prop :=
+  ∃ f fs' r1, fs = f :: fs' ∧ fieldP (termP n) (s ++ rest) = .ok f r1 ∧
+    sepTail commaWsc (fieldP (termP n)) r1 = .ok fs' rest
+
+/-- the named-field alternative fails on an unnamed field (at the first character, or at the `:`) -/
+theorem namedAlt_fails {term : P T} {t : T} {ps : List Piece} {rest : Str} (h : LayP t ps) (hs : Stop rest) :
+    Fails (bind identifier fun n => seq (pchar ':') (seq ws1 (pmap term (F.mk (some n)))))
+      (renderPieces ps ++ rest) := by
+  have hcolon : Fails (pchar ':') rest := by
+    have := hs.2.1
+    cases rest with
+    | nil => exact pchar_nil ':'
+    | cons c t =>
+      simp only [headAll_cons, Bool.and_eq_true, bne_iff_ne, ne_eq] at this
+      exact pchar_ne this.2 t
+  have hup : ∀ {n : Str} (x : Str), isTupleNameStr n = true → Fails identifier (n ++ x) := by
+    intro n x hn
+    cases n with
+    | nil => simp [isTupleNameStr] at hn
+    | cons c r =>
+      simp only [isTupleNameStr, Bool.and_eq_true] at hn
+      refine identifier_fails_of_head ?_
+      simp only [List.cons_append, headAll_cons, Bool.not_eq_true']
+      simp only [isUpper, isLower, Bool.and_eq_true, decide_eq_true_eq] at hn ⊢
+      simp only [Bool.and_eq_false_iff, decide_eq_false_iff_not]
+      omega
+  have hopen : ∀ {name : Option Str} (x : Str), optOk isTupleNameStr name →
+      Fails identifier (openText name ++ x) := by
+    intro name x hn
+    cases name with
+    | none => exact identifier_fails_of_head (by simp [openText, headAll]; decide)
+    | some n => simpa [openText] using hup ('[' :: x) hn
+  cases h with
+  | leaf hn =>
+    simp only [renderPieces, Piece.render, List.append_nil]
+    exact Fails.bind_ok (identifier_append hn hs.1) (Fails.seq hcolon)
+  | empty hn =>
+    rename_i name
+    cases name with
+    | none => exact Fails.bind (identifier_fails_of_head (by simp [renderPieces, Piece.render, emptyText, headAll]; decide))
+    | some n =>
+      simp only [renderPieces, Piece.render, emptyText, List.append_nil]
+      exact Fails.bind (hup rest hn)
+  | flat hn _ =>
+    simp only [renderPieces, Piece.render, List.append_assoc]
+    exact Fails.bind (hopen _ hn)
+  | brk k1 k2 hn _ =>
+    simp only [renderPieces, Piece.render, List.append_assoc]
+    exact Fails.bind (hopen _ hn)
+
+theorem idStop_colon (r : Str) : IdStop (':' :: r) := by simp [IdStop]; decide
+
+theorem render_open (name : Option Str) (X : List Piece) (rest : Str) :
+    renderPieces (.atom (openText name) :: X) ++ rest = openText name ++ (renderPieces X ++ rest) := by
+  simp [renderPieces, Piece.render]
+
+theorem openText_length (name : Option Str) : 0 < (openText name).length := by simp [openText]
+
 mutual
 /-- The fragment parser reads every layout of `t` back as `t` (with enough fuel for the text, and
-    provided what follows cannot be taken for a part of a name). -/
+    provided what follows cannot be taken for a continuation of the term, `Stop`). -/
 theorem termP_lay : ∀ {t : T} {ps : List Piece}, LayP t ps → ∀ (n : Nat) (rest : Str),
-    (renderPieces ps).length < n → IdStop rest → termP n (renderPieces ps ++ rest) = .ok t rest
+    (renderPieces ps).length < n → Stop rest → termP n (renderPieces ps ++ rest) = .ok t rest
   | _, _, .leaf (n := name) hn, n, rest, hlen, hstop => by
     cases n with
     | zero => omega
@@ -582,73 +670,111 @@ theorem termP_lay : ∀ {t : T} {ps : List Piece}, LayP t ps → ∀ (n : Nat) (
       simp only [renderPieces, Piece.render, List.append_nil]
       unfold termP
       rw [alt_of_fails]
-      · exact pmap_ok (identifier_append hn hstop)
+      · exact pmap_ok (identifier_append hn hstop.1)
       · cases name with
         | nil => simp [isIdentStr] at hn
         | cons c r =>
           simp only [isIdentStr, Bool.and_eq_true] at hn
-          exact Fails.pmap (Fails.delimited (Fails.seq (pchar_ne (lower_ne hn.1 '[' (by decide)) _)))
-  | _, _, .empty, n, rest, hlen, _ => by
+          refine tupleP_fails ?_ ?_
+          · simp [headAll, lower_ne hn.1 '[' (by decide)]
+          · simp only [List.cons_append, headAll_cons, Bool.not_eq_true']
+            have := hn.1
+            simp only [isUpper, isLower, Bool.and_eq_true, decide_eq_true_eq] at this ⊢
+            simp only [Bool.and_eq_false_iff, decide_eq_false_iff_not]
+            omega
+  | _, _, .empty (name := name) hn, n, rest, hlen, hstop => by
     cases n with
     | zero => omega
     | succ n =>
-      cases n with
-      | zero => simp [renderPieces, Piece.render] at hlen
-      | succ n =>
-        have hs : renderPieces [.atom ['[', ']']] ++ rest = '[' :: ']' :: rest := by
-          simp [renderPieces, Piece.render]
-        rw [hs]
+      cases name with
+      | some nm =>
+        simp only [renderPieces, Piece.render, emptyText, List.append_nil]
         unfold termP
-        refine alt_of_ok (tupleP_ok (o := none) (wsc_of_head (headOk_close rest))
-          (sepList0_of_fails (termP_fails_close n rest)) (.inl ?_))
-        exact opt_of_fails (Fails.seq_ok (wsc_of_head (headOk_close rest)) (pchar_ne (by decide) rest))
-  | _, _, .flat (items := items) hi, n, rest, hlen, _ => by
+        exact alt_of_ok (tupleP_bare hn hstop)
+      | none =>
+        cases n with
+        | zero => simp [renderPieces, Piece.render, emptyText] at hlen
+        | succ n =>
+          have hs : renderPieces [.atom (emptyText none)] ++ rest = openText none ++ (']' :: rest) := by
+            simp [renderPieces, Piece.render, emptyText, openText]
+          rw [hs]
+          unfold termP
+          refine alt_of_ok (tupleP_open (name := none) trivial
+            (bracketsP_ok (o := none) (wsc_of_head (headOk_close rest))
+              (sepList0_of_fails (fieldP_fails_close n rest)) (.inl ?_)))
+          exact opt_of_fails (Fails.seq_ok (wsc_of_head (headOk_close rest)) (pchar_ne (by decide) rest))
+  | _, _, .flat (name := name) (items := items) hn hi, n, rest, hlen, _ => by
     cases n with
     | zero => omega
     | succ n =>
-      have hs : renderPieces (.atom ['['] :: (items ++ [.atom [']']])) ++ rest =
-          '[' :: (renderPieces items ++ ']' :: rest) := by
+      have hs : renderPieces (.atom (openText name) :: (items ++ [.atom [']']])) ++ rest =
+          openText name ++ (renderPieces items ++ ']' :: rest) := by
         simp [renderPieces, Piece.render, renderPieces_append]
       have hl : (renderPieces items).length < n := by
+        have := openText_length name
         simp [renderPieces, Piece.render, renderPieces_append] at hlen; omega
       rw [hs]
-      obtain ⟨f', fs', r1, heq, hf, ht⟩ := items_lay hi n (']' :: rest) hl (idStop_close rest)
+      obtain ⟨f', fs', r1, heq, hf, ht⟩ := items_lay hi n (']' :: rest) hl (stop_close rest)
         (sepTail_of_fails (commaWsc_fails_close rest))
       unfold termP
-      refine alt_of_ok (tupleP_ok (o := none) (wsc_headOk ((itemsP_head hi).append _))
-        (by rw [heq]; exact sepList0_cons hf ht) (.inl ?_))
+      refine alt_of_ok (tupleP_open hn (bracketsP_ok (o := none) (wsc_headOk ((itemsP_head hi).append _))
+        (by rw [heq]; exact sepList0_cons hf ht) (.inl ?_)))
       exact opt_of_fails (Fails.seq_ok (wsc_of_head (headOk_close rest)) (pchar_ne (by decide) rest))
-  | _, _, .brk (items := items) k1 k2 hi, n, rest, hlen, _ => by
+  | _, _, .brk (name := name) (items := items) k1 k2 hn hi, n, rest, hlen, _ => by
     cases n with
     | zero => omega
     | succ n =>
-      have hs : renderPieces (.atom ['['] :: .nl k1 :: (items ++ [.atom [','], .nl k2, .atom [']']])) ++ rest =
-          '[' :: '\n' :: (List.replicate k1 ' ' ++
-            (renderPieces items ++ ',' :: '\n' :: (List.replicate k2 ' ' ++ ']' :: rest))) := by
+      have hs : renderPieces (.atom (openText name) :: .nl k1 ::
+            (items ++ [.atom [','], .nl k2, .atom [']']])) ++ rest =
+          openText name ++ ('\n' :: (List.replicate k1 ' ' ++
+            (renderPieces items ++ ',' :: '\n' :: (List.replicate k2 ' ' ++ ']' :: rest)))) := by
         simp [renderPieces, Piece.render, renderPieces_append]
       have hl : (renderPieces items).length < n := by
+        have := openText_length name
         simp [renderPieces, Piece.render, renderPieces_append] at hlen; omega
       rw [hs]
       cases n with
       | zero => omega
       | succ m =>
-        have hend : sepTail commaWsc (termP (m + 1)) (',' :: '\n' :: (List.replicate k2 ' ' ++ ']' :: rest)) =
+        have hend : sepTail commaWsc (fieldP (termP (m + 1)))
+              (',' :: '\n' :: (List.replicate k2 ' ' ++ ']' :: rest)) =
             .ok [] (',' :: '\n' :: (List.replicate k2 ' ' ++ ']' :: rest)) :=
-          sepTail_item_fails (commaWsc_nl_close k2 rest) (by simp; omega) (termP_fails_close m rest)
-        obtain ⟨f', fs', r1, heq, hf, ht⟩ := items_lay hi (m + 1) _ hl (idStop_comma _) hend
+          sepTail_item_fails (commaWsc_nl_close k2 rest) (by simp; omega) (fieldP_fails_close m rest)
+        obtain ⟨f', fs', r1, heq, hf, ht⟩ := items_lay hi (m + 1) _ hl (stop_comma _) hend
         unfold termP
-        refine alt_of_ok (tupleP_ok (o := some ()) (wsc_nl_headOk k1 ((itemsP_head hi).append _))
+        refine alt_of_ok (tupleP_open hn (bracketsP_ok (o := some ())
+          (wsc_nl_headOk k1 ((itemsP_head hi).append _))
           (by rw [heq]; exact sepList0_cons hf ht)
-          (.inr ⟨'\n' :: (List.replicate k2 ' ' ++ ']' :: rest), ?_, ?_⟩))
+          (.inr ⟨'\n' :: (List.replicate k2 ' ' ++ ']' :: rest), ?_, ?_⟩)))
         · exact opt_ok (by rw [seq_ok (wsc_of_head (headOk_comma _))]; exact pchar_self ',' _)
         · rw [seq_ok (r := ']' :: rest) (a := ())
             (by simp [wsc, skipWsc_nl, skipWsc_of_head (headOk_close rest)])]
           exact pchar_self ']' rest
-theorem items_lay : ∀ {bk : Bool} {fs : List T} {ps : List Piece}, ItemsP bk fs ps →
-    ∀ (n : Nat) (rest : Str), (renderPieces ps).length < n → IdStop rest →
-    sepTail commaWsc (termP n) rest = .ok [] rest → ItemsRead n fs (renderPieces ps) rest
+theorem fieldP_lay : ∀ {f : F} {ps : List Piece}, LayF f ps → ∀ (n : Nat) (rest : Str),
+    (renderPieces ps).length < n → Stop rest → fieldP (termP n) (renderPieces ps ++ rest) = .ok f rest
+  | _, _, .unnamed hl, n, rest, hlen, hstop => by
+    unfold fieldP
+    rw [alt_of_fails (namedAlt_fails hl hstop)]
+    exact pmap_ok (termP_lay hl n rest hlen hstop)
+  | _, _, .named (l := l) (ps := ps) hn hl, n, rest, hlen, hstop => by
+    have hs : renderPieces (.atom (l ++ [':']) :: .sp :: ps) ++ rest =
+        l ++ (':' :: ' ' :: (renderPieces ps ++ rest)) := by
+      simp [renderPieces, Piece.render]
+    have hl1 : (renderPieces ps).length < n := by
+      simp [renderPieces, Piece.render] at hlen; omega
+    rw [hs]
+    unfold fieldP
+    refine alt_of_ok ?_
+    rw [bind_ok (identifier_append hn (idStop_colon _)), seq_ok (pchar_self ':' _)]
+    have hws : ws1 (' ' :: (renderPieces ps ++ rest)) = .ok () (renderPieces ps ++ rest) := by
+      simp [ws1, show isMultispace ' ' = true by decide, headOk_not_ms ((layP_head hl).append rest)]
+    rw [seq_ok hws]
+    exact pmap_ok (termP_lay hl n rest hl1 hstop)
+theorem items_lay : ∀ {bk : Bool} {fs : List F} {ps : List Piece}, ItemsP bk fs ps →
+    ∀ (n : Nat) (rest : Str), (renderPieces ps).length < n → Stop rest →
+    sepTail commaWsc (fieldP (termP n)) rest = .ok [] rest → ItemsRead n fs (renderPieces ps) rest
   | _, _, _, .one (f := f) hl, n, rest, hlen, hstop, hend =>
-    ⟨f, [], rest, rfl, termP_lay hl n rest hlen hstop, hend⟩
+    ⟨f, [], rest, rfl, fieldP_lay hl n rest hlen hstop, hend⟩
   | _, _, _, .consFlat (f := f) (ps := ps) (rest := restp) hl hi, n, rest, hlen, hstop, hend => by
     have hs : renderPieces (ps ++ .atom [','] :: .sp :: restp) ++ rest =
         renderPieces ps ++ (',' :: ' ' :: (renderPieces restp ++ rest)) := by
@@ -658,9 +784,9 @@ theorem items_lay : ∀ {bk : Bool} {fs : List T} {ps : List Piece}, ItemsP bk f
     obtain ⟨g', fs', r1, heq, hg, ht⟩ := items_lay hi n rest hl1.2 hstop hend
     unfold ItemsRead
     refine ⟨f, g' :: fs', ',' :: ' ' :: (renderPieces restp ++ rest), by rw [heq], ?_, ?_⟩
-    · rw [hs]; exact termP_lay hl n _ hl1.1 (idStop_comma _)
-    · exact sepTail_cons sound_commaWsc (termP_sound n) (commaWsc_sp ((itemsP_head hi).append rest))
-        (by simp; omega) hg ht
+    · rw [hs]; exact fieldP_lay hl n _ hl1.1 (stop_comma _)
+    · exact sepTail_cons sound_commaWsc (fieldP_sound (termP_sound n))
+        (commaWsc_sp ((itemsP_head hi).append rest)) (by simp; omega) hg ht
   | _, _, _, .consBrk (f := f) (ps := ps) (rest := restp) k hl hi, n, rest, hlen, hstop, hend => by
     have hs : renderPieces (ps ++ .atom [','] :: .nl k :: restp) ++ rest =
         renderPieces ps ++ (',' :: '\n' :: (List.replicate k ' ' ++ (renderPieces restp ++ rest))) := by
@@ -671,384 +797,9 @@ theorem items_lay : ∀ {bk : Bool} {fs : List T} {ps : List Piece}, ItemsP bk f
     unfold ItemsRead
     refine ⟨f, g' :: fs', ',' :: '\n' :: (List.replicate k ' ' ++ (renderPieces restp ++ rest)),
       by rw [heq], ?_, ?_⟩
-    · rw [hs]; exact termP_lay hl n _ hl1.1 (idStop_comma _)
-    · exact sepTail_cons sound_commaWsc (termP_sound n) (commaWsc_nl k ((itemsP_head hi).append rest))
-        (by simp; omega) hg ht
+    · rw [hs]; exact fieldP_lay hl n _ hl1.1 (stop_comma _)
+    · exact sepTail_cons sound_commaWsc (fieldP_sound (termP_sound n))
+        (commaWsc_nl k ((itemsP_head hi).append rest)) (by simp; omega) hg ht
 end
-
-/-! ### 5. The post-passes of `format_program` on a layout
-
-`collapse_blanks` and `expand_literals` work line by line (`str::lines`). The lines of a piece list are
-computed directly (`linesFwd`); for a tidy, NUL-free piece list every line ends in a non-blank
-character and does not start (after its indentation) with the NUL of a literal placeholder, so both
-passes leave the text alone — up to the final newline that `collapse_blanks` adds. -/
-
-/-- the lines of the rendered pieces; `p` is the current line so far -/
-def linesFwd (p : List Char) : List Piece → List (List Char)
-  | [] => if p.isEmpty then [] else [p]
-  | .atom s :: r => linesFwd (p ++ s) r
-  | .sp :: r => linesFwd (p ++ [' ']) r
-  | .nl k :: r => p :: linesFwd (List.replicate k ' ') r
-
-/-- every atom is free of white space -/
-def atomsOk : List Piece → Bool
-  | [] => true
-  | .atom s :: r => s.all (fun c => !isWhitespace c) && atomsOk r
-  | _ :: r => atomsOk r
-
-/-- no atom contains the NUL that marks a literal placeholder -/
-def nulFree : List Piece → Bool
-  | [] => true
-  | .atom s :: r => s.all (· ≠ '\x00') && nulFree r
-  | _ :: r => nulFree r
-
-theorem atomsOk_of_tidy : ∀ (ps : List Piece) (b : Bool), tidyPs b ps = true → atomsOk ps = true
-  | [], _, _ => rfl
-  | .atom s :: r, b, h => by
-    simp only [tidyPs, goodAtom, Bool.and_eq_true] at h
-    simp [atomsOk, h.1.2, atomsOk_of_tidy r true h.2]
-  | .sp :: r, b, h => by
-    simp only [tidyPs] at h
-    simpa [atomsOk] using atomsOk_of_tidy r false h
-  | .nl k :: r, b, h => by
-    simp only [tidyPs, Bool.and_eq_true] at h
-    simpa [atomsOk] using atomsOk_of_tidy r false h.2
-
-theorem rustLinesAux_linesFwd (ps : List Piece) : ∀ (p : List Char), atomsOk ps = true → '\r' ∉ p →
-    rustLinesAux p.reverse (renderPieces ps) = linesFwd p ps := by
-  induction ps with
-  | nil =>
-    intro p _ _
-    simp [renderPieces, rustLinesAux, linesFwd]
-  | cons x r ih =>
-    intro p ha hp
-    cases x with
-    | atom s =>
-      simp only [atomsOk, Bool.and_eq_true] at ha
-      simp only [renderPieces, Piece.render, linesFwd]
-      rw [rustLinesAux_append s (all_ne_nl_of_not_ws ha.1), ← List.reverse_append]
-      refine ih (p ++ s) ha.2 ?_
-      intro hm
-      rcases List.mem_append.mp hm with hm | hm
-      · exact hp hm
-      · have := (List.all_eq_true.mp ha.1) _ hm
-        rw [isWhitespace_cr] at this
-        exact Bool.noConfusion this
-    | sp =>
-      simp only [atomsOk] at ha
-      simp only [renderPieces, Piece.render, List.cons_append, List.nil_append, rustLinesAux,
-        show ¬ (' ' = '\n') by decide, if_false, linesFwd]
-      have := ih (p ++ [' ']) ha (by
-        intro hm
-        rcases List.mem_append.mp hm with hm | hm
-        · exact hp hm
-        · simp at hm)
-      simpa using this
-    | nl k =>
-      simp only [atomsOk] at ha
-      simp only [renderPieces, Piece.render, List.cons_append, rustLinesAux, if_true, linesFwd]
-      have hrep : (List.replicate k ' ').all (· ≠ '\n') = true := by
-        simp only [List.all_eq_true, decide_eq_true_eq]
-        intro c hc; rw [List.eq_of_mem_replicate hc]; decide
-      rw [rustLinesAux_append _ hrep]
-      have ih' := ih (List.replicate k ' ') ha (by
-        intro hm; have := List.eq_of_mem_replicate hm; exact absurd this (by decide))
-      have htail : rustLinesAux ((List.replicate k ' ').reverse ++ []) (renderPieces r) =
-          linesFwd (List.replicate k ' ') r := by simpa using ih'
-      rw [htail]
-      congr 1
-      split
-      · rename_i cur' heq
-        exfalso; apply hp
-        have : '\r' ∈ p.reverse := by rw [heq]; simp
-        simpa using this
-      · simp
-
-/-- the current line ends in a non-blank character (if the flag claims an atom) -/
-def EndsOk (b : Bool) (p : List Char) : Prop :=
-  b = true → ∃ init c, p = init ++ [c] ∧ isWhitespace c = false
-
-/-- the first character after the indentation -/
-def headNS (p : List Char) : Option Char := (p.dropWhile (· = ' ')).head?
-
-theorem headNS_append (p s : List Char) :
-    headNS (p ++ s) = if p.all (· = ' ') then headNS s else headNS p := by
-  induction p with
-  | nil => simp [headNS]
-  | cons c p ih =>
-    by_cases hc : c = ' '
-    · subst hc
-      simpa [headNS, List.dropWhile_cons] using ih
-    · simp [headNS, hc]
-
-/-- a line that the post-passes leave alone -/
-def GoodLine (l : List Char) : Prop :=
-  (∃ init c, l = init ++ [c] ∧ isWhitespace c = false) ∧ headNS l ≠ some '\x00'
-
-theorem headNS_ne_nul_of_all {s : List Char} (h : s.all (· ≠ '\x00') = true) : headNS s ≠ some '\x00' := by
-  intro e
-  have hm : '\x00' ∈ s.dropWhile (· = ' ') := by
-    unfold headNS at e
-    exact List.mem_of_mem_head? (by rw [e]; rfl)
-  have hs : '\x00' ∈ s := (List.dropWhile_sublist _).subset hm
-  have := (List.all_eq_true.mp h) _ hs
-  simp at this
-
-theorem linesFwd_good (ps : List Piece) : ∀ (b : Bool) (p : List Char), tidyPs b ps = true →
-    nulFree ps = true → EndsOk b p → headNS p ≠ some '\x00' → ∀ l ∈ linesFwd p ps, GoodLine l := by
-  induction ps with
-  | nil =>
-    intro b p hb _ hp hn l hl
-    simp only [tidyPs] at hb
-    simp only [linesFwd] at hl
-    split at hl
-    · simp at hl
-    · simp only [List.mem_singleton] at hl
-      subst hl
-      exact ⟨hp hb, hn⟩
-  | cons x r ih =>
-    intro b p hb hnf hp hn l hl
-    cases x with
-    | atom s =>
-      simp only [tidyPs, goodAtom, Bool.and_eq_true, Bool.not_eq_true', List.isEmpty_eq_false_iff] at hb
-      simp only [nulFree, Bool.and_eq_true] at hnf
-      simp only [linesFwd] at hl
-      refine ih true (p ++ s) hb.2 hnf.2 ?_ ?_ l hl
-      · intro _
-        obtain ⟨hne, hall⟩ := hb.1
-        have hlast := List.dropLast_concat_getLast hne
-        refine ⟨p ++ s.dropLast, s.getLast hne, by rw [List.append_assoc, hlast], ?_⟩
-        simpa using (List.all_eq_true.mp hall) _ (List.getLast_mem hne)
-      · rw [headNS_append]
-        split
-        · exact headNS_ne_nul_of_all hnf.1
-        · exact hn
-    | sp =>
-      simp only [tidyPs] at hb
-      simp only [nulFree] at hnf
-      simp only [linesFwd] at hl
-      refine ih false (p ++ [' ']) hb hnf (by intro h; exact Bool.noConfusion h) ?_ l hl
-      rw [headNS_append]
-      split
-      · simp [headNS]
-      · exact hn
-    | nl k =>
-      simp only [tidyPs, Bool.and_eq_true] at hb
-      simp only [nulFree] at hnf
-      simp only [linesFwd, List.mem_cons] at hl
-      rcases hl with rfl | hl
-      · exact ⟨hp hb.1, hn⟩
-      · refine ih false (List.replicate k ' ') hb.2 hnf (by intro h; exact Bool.noConfusion h) ?_ l hl
-        have : (List.replicate k ' ').dropWhile (· = ' ') = [] := by
-          rw [List.dropWhile_replicate]; simp
-        simp [headNS, this]
-
-theorem linesFwd_snoc_nl (ps : List Piece) : ∀ (b : Bool) (p : List Char), tidyPs b ps = true →
-    EndsOk b p → linesFwd p (ps ++ [.nl 0]) = linesFwd p ps := by
-  induction ps with
-  | nil =>
-    intro b p hb hp
-    simp only [tidyPs] at hb
-    obtain ⟨init, c, rfl, _⟩ := hp hb
-    simp [linesFwd]
-  | cons x r ih =>
-    intro b p hb hp
-    cases x with
-    | atom s =>
-      simp only [tidyPs, goodAtom, Bool.and_eq_true, Bool.not_eq_true', List.isEmpty_eq_false_iff] at hb
-      simp only [List.cons_append, linesFwd]
-      refine ih true (p ++ s) hb.2 ?_
-      intro _
-      obtain ⟨hne, hall⟩ := hb.1
-      refine ⟨p ++ s.dropLast, s.getLast hne, by rw [List.append_assoc, List.dropLast_concat_getLast hne], ?_⟩
-      simpa using (List.all_eq_true.mp hall) _ (List.getLast_mem hne)
-    | sp =>
-      simp only [tidyPs] at hb
-      simp only [List.cons_append, linesFwd]
-      exact ih false _ hb (by intro h; exact Bool.noConfusion h)
-    | nl k =>
-      simp only [tidyPs, Bool.and_eq_true] at hb
-      simp only [List.cons_append, linesFwd]
-      rw [ih false _ hb.2 (by intro h; exact Bool.noConfusion h)]
-
-theorem collapseLoop_id (L : List (List Char)) (h : ∀ l ∈ L, isBlankLine l = false) :
-    ∀ b : Bool, collapseLoop b L = L := by
-  induction L with
-  | nil => intro b; rfl
-  | cons l ls ih =>
-    intro b
-    have hl := h l (by simp)
-    simp only [collapseLoop, hl, Bool.false_and, Bool.false_eq_true, if_false]
-    rw [ih (fun x hx => h x (by simp [hx]))]
-
-theorem dropTrailingEmpty_id (L : List (List Char)) (h : ∀ l ∈ L, l ≠ []) : dropTrailingEmpty L = L := by
-  unfold dropTrailingEmpty
-  cases hr : L.reverse with
-  | nil => simp [List.reverse_eq_nil_iff.mp hr]
-  | cons a t =>
-    have ha : a ∈ L := by
-      have : a ∈ L.reverse := by rw [hr]; simp
-      simpa using this
-    have hne : a.isEmpty = false := by
-      cases a with
-      | nil => exact absurd rfl (h [] ha)
-      | cons c r => rfl
-    rw [List.dropWhile_cons, hne]
-    simp only [Bool.false_eq_true, if_false]
-    rw [← hr, List.reverse_reverse]
-
-theorem trimEnd_snoc (init : List Char) (c : Char) (h : isWhitespace c = false) :
-    trimEnd (init ++ [c]) = init ++ [c] := by
-  simp [trimEnd, h]
-
-theorem map_trimEnd_id (L : List (List Char))
-    (h : ∀ l ∈ L, ∃ init c, l = init ++ [c] ∧ isWhitespace c = false) : L.map trimEnd = L := by
-  induction L with
-  | nil => rfl
-  | cons l ls ih =>
-    obtain ⟨init, c, rfl, hc⟩ := h l (by simp)
-    rw [List.map_cons, trimEnd_snoc init c hc, ih (fun x hx => h x (by simp [hx]))]
-
-theorem flatten_map_nl (L : List (List Char)) (h : L ≠ []) :
-    (L.map (· ++ ['\n'])).flatten = joinNl L ++ ['\n'] := by
-  induction L with
-  | nil => exact absurd rfl h
-  | cons l ls ih =>
-    cases ls with
-    | nil => simp [joinNl]
-    | cons l' ls =>
-      have := ih (by simp)
-      simp only [List.map_cons, List.flatten_cons] at this ⊢
-      rw [this]
-      simp [joinNl]
-
-theorem expandLine_plain {l : List Char} (h : headNS l ≠ some '\x00') : expandLine [] l = some [l] := by
-  unfold expandLine
-  simp only []
-  unfold headNS at h
-  split
-  · rename_i digits heq
-    rw [heq] at h
-    exact absurd rfl h
-  · rfl
-
-theorem mapM_expand (L : List (List Char)) (h : ∀ l ∈ L, expandLine [] l = some [l]) :
-    L.mapM (expandLine []) = some (L.map fun l => [l]) := by
-  induction L with
-  | nil => rfl
-  | cons l ls ih =>
-    rw [List.mapM_cons, h l (by simp), ih (fun x hx => h x (by simp [hx]))]
-    rfl
-
-theorem atomsOk_snoc_nl (ps : List Piece) (k : Nat) : atomsOk (ps ++ [.nl k]) = atomsOk ps := by
-  induction ps with
-  | nil => rfl
-  | cons x r ih => cases x <;> simp [atomsOk, ih]
-
-theorem nulFree_append (a b : List Piece) : nulFree (a ++ b) = (nulFree a && nulFree b) := by
-  induction a with
-  | nil => simp [nulFree]
-  | cons x r ih => cases x <;> simp [nulFree, ih, Bool.and_assoc]
-
-/-- `collapse_blanks` adds the final newline to a tidy, NUL-free text and changes nothing else;
-    `expand_literals` then finds no placeholder line. -/
-theorem post_passes {ps : List Piece} (h1 : tidyPs false ps = true) (h2 : nulFree ps = true) :
-    collapseBlanks (renderPieces ps) = renderPieces ps ++ ['\n'] ∧
-    expandLiterals (renderPieces ps ++ ['\n']) [] = some (renderPieces ps ++ ['\n']) := by
-  have hok := atomsOk_of_tidy ps false h1
-  have hL : rustLines (renderPieces ps) = linesFwd [] ps := by
-    have := rustLinesAux_linesFwd ps [] hok (by simp)
-    simpa [rustLines] using this
-  have hgood : ∀ l ∈ linesFwd [] ps, GoodLine l :=
-    linesFwd_good ps false [] h1 h2 (by intro h; exact Bool.noConfusion h) (by simp [headNS])
-  have htrim : (linesFwd [] ps).map trimEnd = linesFwd [] ps :=
-    map_trimEnd_id _ (fun l hl => (hgood l hl).1)
-  have hjoin : joinNl (linesFwd [] ps) = renderPieces ps := by
-    have := strip_aux ps false [] h1 (by intro h; exact Bool.noConfusion h)
-    rw [show rustLinesAux [] (renderPieces ps) = rustLines (renderPieces ps) from rfl, hL, htrim] at this
-    simpa using this
-  have hnb : ∀ l ∈ linesFwd [] ps, isBlankLine l = false := by
-    intro l hl
-    obtain ⟨init, c, rfl, hc⟩ := (hgood l hl).1
-    simp [isBlankLine, hc]
-  have hne : ∀ l ∈ linesFwd [] ps, l ≠ [] := by
-    intro l hl
-    obtain ⟨init, c, rfl, _⟩ := (hgood l hl).1
-    simp
-  have hLne : linesFwd [] ps ≠ [] := by
-    intro e
-    rw [e] at hjoin
-    exact renderPieces_ne_nil_of_tidy h1 hjoin.symm
-  refine ⟨?_, ?_⟩
-  · unfold collapseBlanks
-    rw [hL, collapseLoop_id _ hnb, dropTrailingEmpty_id _ hne, hjoin]
-  · have hr : renderPieces ps ++ ['\n'] = renderPieces (ps ++ [.nl 0]) := by
-      simp [renderPieces_append, renderPieces, Piece.render]
-    have hL' : rustLines (renderPieces ps ++ ['\n']) = linesFwd [] ps := by
-      rw [hr]
-      have := rustLinesAux_linesFwd (ps ++ [.nl 0]) [] (by rw [atomsOk_snoc_nl]; exact hok) (by simp)
-      rw [linesFwd_snoc_nl ps false [] h1 (by intro h; exact Bool.noConfusion h)] at this
-      simpa [rustLines] using this
-    unfold expandLiterals
-    rw [hL', mapM_expand _ (fun l hl => expandLine_plain (hgood l hl).2)]
-    simp only [Option.map_some]
-    have : ((linesFwd [] ps).map fun l => [l]).flatten = linesFwd [] ps := by
-      induction linesFwd [] ps with
-      | nil => rfl
-      | cons a t ih => simp [ih]
-    rw [this, flatten_map_nl _ hLne, hjoin]
-
-/-! Layouts are NUL-free. -/
-
-theorem ident_nulFree {n : Str} (h : isIdentStr n = true) : n.all (· ≠ '\x00') = true := by
-  cases n with
-  | nil => simp [isIdentStr] at h
-  | cons c r =>
-    simp only [isIdentStr, Bool.and_eq_true, Bool.or_eq_true, decide_eq_true_eq] at h
-    obtain ⟨hc, hsuf⟩ := h
-    have hsplit : r = r.takeWhile isIdentBody ++ r.dropWhile isIdentBody :=
-      List.takeWhile_append_dropWhile.symm
-    have h1 : (r.takeWhile isIdentBody).all (· ≠ '\x00') = true := by
-      have := all_takeWhile isIdentBody r
-      simp only [List.all_eq_true, decide_eq_true_eq] at this ⊢
-      intro x hx e
-      have hb := this x hx
-      rw [e] at hb
-      exact absurd hb (by decide)
-    have h2 : (r.dropWhile isIdentBody).all (· ≠ '\x00') = true := by
-      rcases hsuf with ((e | e) | e) | e <;> rw [e] <;> decide
-    have hr : r.all (· ≠ '\x00') = true := by
-      rw [hsplit, List.all_append, h1, h2]; rfl
-    have hc0 := lower_ne hc '\x00' (by decide)
-    simp only [List.all_cons, Bool.and_eq_true, decide_eq_true_eq]
-    exact ⟨hc0, hr⟩
-
-mutual
-theorem layP_nulFree : ∀ {t : T} {ps : List Piece}, LayP t ps → nulFree ps = true
-  | _, _, .leaf hn => by
-    simp only [nulFree, Bool.and_eq_true]
-    exact ⟨ident_nulFree hn, trivial⟩
-  | _, _, .empty => by decide
-  | _, _, .flat hi => by
-    have := itemsP_nulFree hi
-    simp [nulFree, nulFree_append, this]
-  | _, _, .brk k1 k2 hi => by
-    have := itemsP_nulFree hi
-    simp [nulFree, nulFree_append, this]
-theorem itemsP_nulFree : ∀ {bk : Bool} {fs : List T} {ps : List Piece}, ItemsP bk fs ps → nulFree ps = true
-  | _, _, _, .one hl => layP_nulFree hl
-  | _, _, _, .consFlat hl hi => by
-    simp [nulFree, nulFree_append, layP_nulFree hl, itemsP_nulFree hi]
-  | _, _, _, .consBrk k hl hi => by
-    simp [nulFree, nulFree_append, layP_nulFree hl, itemsP_nulFree hi]
-end
-
-/-- both post-passes of `format_program` on a layout -/
-theorem post_passes_layP {t : T} {ps : List Piece} (h : LayP t ps) :
-    collapseBlanks (renderPieces ps) = renderPieces ps ++ ['\n'] ∧
-    expandLiterals (renderPieces ps ++ ['\n']) [] = some (renderPieces ps ++ ['\n']) := by
-  have ht := layP_tidy h false [] rfl
-  rw [List.append_nil] at ht
-  exact post_passes ht (layP_nulFree h)
 
 end QM.Frag
